@@ -21,7 +21,9 @@ type c18Shape struct{ a, x, d, e, b int }
 
 var c18Opens = []string{"a", "x", "d", "d/x", "d/y", "d/y/w", "d-", "d-/x", ".", "zz", "big", "big/n03", "big/n04", "big/n15"}
 var c18Dirs = []string{".", "a", "d", "d-", "d/y", "zz", "big", "big/n04"}
-var c18Globs = []string{"*", "d/*", "*/*", "*/x", "a", "?", "[", "d-/x", "d*/x*", "*/*/*", "big/*", "big/n0?"}
+var c18Globs = []string{"*", "d/*", "*/*", "*/x", "a", "?", "[", "d-/x", "d*/x*", "*/*/*", "big/*", "big/n0?",
+	// patterns without * or ?: character classes, ranges, negation, escapes
+	"[ax]", "d/[xy]", "[d]/x", `\a`, "[a-d]", "[^a]", "d/[xy]/w", "d[-]/x", `d\-/x`, "[x", "zz", "d/y", "big/n0[34]"}
 
 func c18Layer(idx int, sh c18Shape) fstest.MapFS {
 	m := fstest.MapFS{}
@@ -216,7 +218,7 @@ func init() { streams["C18"] = runC18 }
 
 func runC18(r *Run) {
 	r.Rule("stacks of 1..3 layers (nil layers included) over 80 layer shapes (72 small ones, 8 with a directory of 14-17 entries whose names are files in one and partly directories in the other): a∈{absent,file,emptydir} × x∈{absent,file} × d∈{absent,file,emptydir,{x},{x,y},{y/w}} × d-∈{absent,{x}}; " +
-		"every stack is one overlay instance queried with a random permutation (plus repeats) of 10 Open/Stat/ReadFile names, 6 ReadDir names and 10 glob patterns, so order- and history-dependence show; " +
+		"every stack is one overlay instance queried with a random permutation (plus repeats) of 10 Open/Stat/ReadFile names, 6 ReadDir names and 25 glob patterns (wildcards, character classes, ranges, negation, escapes, malformed), so order- and history-dependence show; " +
 		"a case is non-trivial when some path is present in ≥2 layers or a nil layer is present")
 	var shapes []c18Shape
 	for a := 0; a < 3; a++ {
